@@ -1,6 +1,7 @@
 import QclibModel.Proofs.RotLaws
 import QclibModel.Spec.Ucr
 import QclibModel.Proofs.UcrProof
+import QclibModel.Proofs.UcrAlgebra
 /-
   C13 — uniformly controlled rotations implement the block-diagonal multiplexer.
   Property theorems only; helper lemmas live in Proofs/UcrProof.lean.
@@ -28,5 +29,45 @@ theorem C13_nolast (half : Θ → Θ) (negl : Θ → Bool)
     sem (ucr (stdOps half negl) ax e (k+1) a false ++ [entG e (k+1) 0]) ψ
       = muxIdeal ax (k+1) a ψ :=
   ucr_nolast_correct half negl hhalf hadd hnegl ax e hv k a ψ
+
+/-- **C13 (composition).** Two uniformly controlled rotations about the same axis on the same
+wires, one after the other, are the multiplexer of the summed angle vectors — whatever entanglers
+the two circuits use.  (The block-diagonal operators form a group isomorphic to `Θ^(2^k)`.) -/
+theorem C13_compose (half : Θ → Θ) (negl : Θ → Bool)
+    (hhalf : ∀ a, half a + half a = a) (hadd : ∀ a b, half (a + b) = half a + half b)
+    (hnegl : ∀ a, negl a = true → a = 0)
+    (ax : Axis) (e e' : Ent) (hv : validPair ax e = true) (hv' : validPair ax e' = true)
+    (k : Nat) (a c : Nat → Θ) (ψ : State R) :
+    sem (ucr (stdOps half negl) ax e k a true ++ ucr (stdOps half negl) ax e' k c true) ψ
+      = muxIdeal ax k (fun j => c j + a j) ψ := by
+  rw [sem_append', C13_ucr half negl hhalf hadd hnegl ax e hv k a,
+    C13_ucr half negl hhalf hadd hnegl ax e' hv' k c, mux_add]
+
+/-- **C13 (inverse).** The same construction with every angle negated undoes the circuit, on
+every state and in both orders: this is how the library un-computes a `ucr` (bottom-up
+preparation, the black-box oracle's daggered multiplexers, `inverse()`). -/
+theorem C13_inverse (half : Θ → Θ) (negl : Θ → Bool)
+    (hhalf : ∀ a, half a + half a = a) (hadd : ∀ a b, half (a + b) = half a + half b)
+    (hnegl : ∀ a, negl a = true → a = 0)
+    (ax : Axis) (e e' : Ent) (hv : validPair ax e = true) (hv' : validPair ax e' = true)
+    (k : Nat) (a : Nat → Θ) (ψ : State R) :
+    sem (ucr (stdOps half negl) ax e k a true
+          ++ ucr (stdOps half negl) ax e' k (fun j => -(a j)) true) ψ = ψ
+    ∧ sem (ucr (stdOps half negl) ax e' k (fun j => -(a j)) true
+          ++ ucr (stdOps half negl) ax e k a true) ψ = ψ := by
+  constructor
+  · rw [sem_append', C13_ucr half negl hhalf hadd hnegl ax e hv k a,
+      C13_ucr half negl hhalf hadd hnegl ax e' hv' k _, mux_neg_left]
+  · rw [sem_append', C13_ucr half negl hhalf hadd hnegl ax e' hv' k _,
+      C13_ucr half negl hhalf hadd hnegl ax e hv k a, mux_neg_right]
+
+/-- **C13 (all angles negligible).** A multiplexer whose angles are all zero is the identity, and
+the circuit the code emits for it denotes the identity as well (for `k = 0` it is empty). -/
+theorem C13_zero (half : Θ → Θ) (negl : Θ → Bool)
+    (hhalf : ∀ a, half a + half a = a) (hadd : ∀ a b, half (a + b) = half a + half b)
+    (hnegl : ∀ a, negl a = true → a = 0)
+    (ax : Axis) (e : Ent) (hv : validPair ax e = true) (k : Nat) (ψ : State R) :
+    sem (ucr (stdOps half negl) ax e k (fun _ => (0 : Θ)) true) ψ = ψ := by
+  rw [C13_ucr half negl hhalf hadd hnegl ax e hv k _, mux_zero]
 
 end Qclib
